@@ -48,7 +48,9 @@ type fpCase struct {
 	Twin     []any    `json:"twin"`
 	UT       any      `json:"ut"`
 	COut     any      `json:"cout"`
-	ErrText  string   `json:"errtext"`
+	// answers of the twins that model a named deviation (FailPointTrace: Explains), by deviation id
+	Devs    map[string][]any `json:"devs"`
+	ErrText string           `json:"errtext"`
 }
 
 var fpContexts = []string{"top", "begin", "eval", "callarg", "lazy", "include", "source", "fnbody"}
@@ -168,6 +170,36 @@ func runFailPoint(id string, uid int, ctx, failKind string, k int, defs []string
 		c.FOut, c.ErrText, c.Depths, c.A, c.UA = run(c.Text)
 		c.TOut, _, _, c.Twin, c.UT = run(c.TwinText)
 		c.COut, _, _, _, _ = run(c.CtlText)
+		// deviation "defmac-behind-failure": the macros of the forms behind the failure point are installed
+		// as well (they are installed when the text is compiled). Its twin evaluates the prefix and then the
+		// macro definitions among the forms behind the failing one.
+		c.Devs = map[string][]any{}
+		behind := ""
+		for i, dn := range defs {
+			// defs[i] is at position i+1 of the forms before the failing form is inserted at k
+			if i+1 >= k && (dn == "defmac" || dn == "defmac-nested") {
+				if hasSet {
+					behind += inst(noopDefByName(dn).redef, uid) + "\n"
+				} else {
+					behind += inst(noopDefByName(dn).setup, uid) + "\n"
+				}
+			}
+		}
+		if behind != "" {
+			env := newFailEnv()
+			defer env.Close()
+			evalSafe(env, noopPrelude)
+			if c.Setup != "" {
+				evalSafe(env, c.Setup)
+			}
+			evalSafe(env, c.TwinText)
+			evalSafe(env, behind)
+			outs := []any{}
+			for _, p := range c.Probes {
+				outs = append(outs, maskedOutcome(env, evalSafe(env, p)))
+			}
+			c.Devs["defmac-behind-failure"] = outs
+		}
 	})
 	return c
 }
